@@ -47,8 +47,8 @@ def canonicalize_url(
         hostname = decode_punycode_hostname(hostname)
         hostname = hostname.lower()
 
-    # Dropping HTTP/HTTPS ports
-    if port == 80 or port == 443:
+    # Dropping HTTP/HTTPS default ports
+    if (port == 80 and scheme == "http") or (port == 443 and scheme == "https"):
         port = None
 
     if strip_fragment:
